@@ -1,5 +1,6 @@
 import Agd.Model.ECS
 /-! Helper lemmas for C05 (ECS cache path). -/
+set_option linter.unusedSimpArgs false
 namespace Agd.ECS
 
 theorem mkECS_isECS (p : Pfx) (sc : Nat) : (mkECS p sc).isECS = true := rfl
@@ -69,6 +70,17 @@ theorem ecsData_ok (e : RawECS) (p : Pfx) (sc : Nat) (h : ecsData e = some (p, s
         · exact Or.inr h2
         · simp [h1, h2] at hfa
     · simp at h
+
+/-- Masking with shifts leaves an address alone exactly when its low bits are zero. -/
+theorem maskAddr_eq_iff (f : Fam) (a bits : Nat) : maskAddr f a bits = a ↔ a % 2 ^ (f.bits - bits) = 0 := by
+  unfold maskAddr
+  rw [Nat.shiftRight_eq_div_pow, Nat.shiftLeft_eq]
+  generalize 2 ^ (f.bits - bits) = d
+  have h := Nat.div_add_mod a d
+  rw [Nat.mul_comm] at h
+  constructor
+  · intro h1; omega
+  · intro h1; omega
 
 /-! ## The cache invariant: every entry was stored by an earlier request under that request's key -/
 
@@ -150,10 +162,17 @@ theorem serve_state (env : Env) (s : St) (r : Req) (u : Up) :
                     exact ⟨hd', by simp [hc, hd']⟩
                 · left; simp [hc]
 
-theorem inv_serve (env : Env) (hist : List (Req × Up)) (s : St) (r : Req) (u : Up)
-    (hi : Inv env hist s) : Inv env ((r, u) :: hist) (serve env s r u).1 := by
+/-- One store keeps the invariant: the new state is the old one, or the old one plus the request's
+own entry under its own key. -/
+theorem inv_step (env : Env) (hist : List (Req × Up)) (s s' : St) (r : Req) (u : Up)
+    (hc : s' = s ∨
+      (∃ sub, mapped env r = some sub ∧ sub.fam = ecsFamOf r ∧ dependent env r u = true ∧
+        s' = { s with ecs := putE s.ecs (ekey r sub) (some ⟨u.token, rmHop u.extra⟩) }) ∨
+      (dependent env r u = false ∧
+        s' = { s with noecs := putN s.noecs (nkey r (zeroPfx (ecsFamOf r))) (some ⟨u.token, rmHop u.extra⟩) }))
+    (hi : Inv env hist s) : Inv env ((r, u) :: hist) s' := by
   have hi' : Inv env ((r, u) :: hist) s := inv_mono env hist _ s (fun x hx => List.mem_cons_of_mem _ hx) hi
-  rcases serve_state env s r u with h | ⟨sub, hm, hf, hd, h⟩ | ⟨hd, h⟩
+  rcases hc with h | ⟨sub, hm, hf, hd, h⟩ | ⟨hd, h⟩
   · rw [h]; exact hi'
   · rw [h]
     constructor
@@ -177,6 +196,98 @@ theorem inv_serve (env : Env) (hist : List (Req × Up)) (s : St) (r : Req) (u : 
         exact ⟨(r, u), List.mem_cons_self, rfl, rfl, hkk, hd⟩
       · exact hi'.1 k it hk
     · exact hi'.2
+
+theorem inv_serve (env : Env) (hist : List (Req × Up)) (s : St) (r : Req) (u : Up)
+    (hi : Inv env hist s) : Inv env ((r, u) :: hist) (serve env s r u).1 :=
+  inv_step env hist s _ r u (serve_state env s r u) hi
+
+/-! ## Overlapping requests -/
+
+/-- When both look-ups miss, `serveCache` is `serveMiss`. -/
+theorem serveCache_miss (env : Env) (s : St) (r : Req) (u : Up) (sub : Pfx)
+    (hm : mapped env r = some sub) (hn : s.noecs (nkey r sub) = none)
+    (he : (if declined r then none else s.ecs (ekey r sub)) = none) :
+    serveCache env s r u = serveMiss env s r sub u := by
+  unfold serveCache serveMiss
+  simp only [hm, hn, he]
+
+/-- A sequential request either leaves the caches alone (FORMERR, GeoIP error, cache hit) or is a
+completion in the same state. -/
+theorem serve_eq_finish (env : Env) (s : St) (r : Req) (u : Up) :
+    (serve env s r u).1 = s ∨ serve env s r u = finish env s r u := by
+  unfold serve finish
+  split
+  · exact Or.inl rfl
+  · cases hm : mapped env r with
+    | none => left; simp [serveCache, hm, errOut]
+    | some sub =>
+      cases hn : s.noecs (nkey r sub) with
+      | some it => left; simp [serveCache, hm, hn]
+      | none =>
+        cases he : (if declined r then none else s.ecs (ekey r sub)) with
+        | some it => left; simp [serveCache, hm, hn, he]
+        | none => right; simpa using serveCache_miss env s r u sub hm hn he
+
+theorem finish_state (env : Env) (s : St) (r : Req) (u : Up) :
+    (finish env s r u).1 = s ∨
+    (∃ sub, mapped env r = some sub ∧ sub.fam = ecsFamOf r ∧ dependent env r u = true ∧
+      (finish env s r u).1 = { s with ecs := putE s.ecs (ekey r sub) (some ⟨u.token, rmHop u.extra⟩) }) ∨
+    (dependent env r u = false ∧
+      (finish env s r u).1 =
+        { s with noecs := putN s.noecs (nkey r (zeroPfx (ecsFamOf r))) (some ⟨u.token, rmHop u.extra⟩) }) := by
+  unfold finish
+  split
+  · exact Or.inl rfl
+  · split
+    · exact Or.inl rfl
+    · rename_i sub hsub
+      unfold serveMiss
+      split
+      · exact Or.inl rfl
+      · rename_i hfam
+        split
+        · exact Or.inl rfl
+        · split
+          · exact Or.inl rfl
+          · by_cases hc : u.cacheable
+            · by_cases hd : dependent env r u = true
+              · right; left
+                exact ⟨sub, hsub, by simpa using hfam, hd, by simp [hc, hd]⟩
+              · right; right
+                have hd' : dependent env r u = false := by simpa using hd
+                exact ⟨hd', by simp [hc, hd']⟩
+            · left; simp [hc]
+
+theorem inv_finish (env : Env) (hist : List (Req × Up)) (s : St) (r : Req) (u : Up)
+    (hi : Inv env hist s) : Inv env ((r, u) :: hist) (finish env s r u).1 :=
+  inv_step env hist s _ r u (finish_state env s r u) hi
+
+/-- The completions of an execution. -/
+def finsOf : List CEv → List (Req × Up)
+  | [] => []
+  | .fin r u :: es => (r, u) :: finsOf es
+  | _ :: es => finsOf es
+
+theorem inv_runC (env : Env) : ∀ (evs : List CEv) (hist : List (Req × Up)) (s : St), Inv env hist s →
+    Inv env (finsOf evs ++ hist) (runC env s evs)
+  | [], hist, s, hi => by simpa [finsOf, runC] using hi
+  | .fin r u :: es, hist, s, hi => by
+    have := inv_runC env es ((r, u) :: hist) _ (inv_finish env hist s r u hi)
+    simp only [runC, stepC, finsOf]
+    exact inv_mono env _ _ _ (fun x hx => by
+      simp only [List.mem_append, List.mem_cons] at hx ⊢
+      rcases hx with h | h | h
+      · exact Or.inl (Or.inr h)
+      · exact Or.inl (Or.inl h)
+      · exact Or.inr h) this
+  | .dropN k :: es, hist, s, hi => by
+    simpa [runC, stepC, finsOf] using inv_runC env es hist _ (inv_dropN env hist s k hi)
+  | .dropE k :: es, hist, s, hi => by
+    simpa [runC, stepC, finsOf] using inv_runC env es hist _ (inv_dropE env hist s k hi)
+
+/-- **States reached by overlapping requests satisfy the invariant.** -/
+theorem inv_reachableC (env : Env) (evs : List CEv) : Inv env (finsOf evs) (runC env St.empty evs) := by
+  simpa using inv_runC env evs [] St.empty (inv_empty env [])
 
 /-- The requests of a history. -/
 def reqsOf : List Ev → List (Req × Up)
@@ -204,6 +315,212 @@ theorem inv_run (env : Env) : ∀ (evs : List Ev) (hist : List (Req × Up)) (s :
 /-- **Reachable states satisfy the invariant.** -/
 theorem inv_reachable (env : Env) (evs : List Ev) : Inv env (reqsOf evs) (runEv env St.empty evs) := by
   simpa using inv_run env evs [] St.empty (inv_empty env [])
+
+/-! ## What a look-up can return in a state satisfying the invariant -/
+
+theorem partition_of_inv (env : Env) (hist : List (Req × Up)) (st : St) (hinv : Inv env hist st) (r : Req) (u : Up)
+    (hsrc : (serve env (st) r u).2.src = .ecsCache) :
+    ∃ x ∈ hist, some x.2.token = (serve env (st) r u).2.tok ∧
+      dependent env x.1 x.2 = true ∧ declined r = false ∧
+      (∃ sub, mapped env r = some sub ∧ mapped env x.1 = some sub ∧ sub.fam = ecsFamOf x.1) ∧
+      x.1.host = r.host ∧ x.1.qtype = r.qtype ∧ x.1.qclass = r.qclass ∧
+      isDO x.1.extra = isDO r.extra := by
+  unfold serve at hsrc ⊢
+  split at hsrc
+  · simp at hsrc
+  · rename_i hbad
+    simp only [hbad, ↓reduceIte]
+    unfold serveCache at hsrc ⊢
+    split at hsrc
+    · simp [errOut] at hsrc
+    · rename_i sub hsub
+      simp only [hsub]
+      split at hsrc
+      · simp at hsrc
+      · split at hsrc
+        · rename_i it hit
+          have hdec : declined r = false := by
+            cases hd : declined r
+            · rfl
+            · simp [hd] at hit
+          simp only [hdec] at hit
+          obtain ⟨x, hx, htok, -, ⟨sub', hm', hf', hk⟩, hdep⟩ := hinv.2 _ it hit
+          simp only [ekey, EKey.mk.injEq] at hk
+          refine ⟨x, hx, by simp [htok], hdep, hdec, ⟨sub, rfl, ?_, ?_⟩, hk.1.symm, hk.2.1.symm,
+            hk.2.2.1.symm, hk.2.2.2.1.symm⟩
+          · rw [hm', hk.2.2.2.2]
+          · rw [hk.2.2.2.2]; exact hf'
+        · split at hsrc
+          · simp [errOut] at hsrc
+          · split at hsrc
+            · simp [errOut] at hsrc
+            · split at hsrc <;> simp [errOut] at hsrc
+
+theorem unscoped_reuse_of_inv (env : Env) (hist : List (Req × Up)) (st : St) (hinv : Inv env hist st) (r : Req) (u : Up)
+    (hsrc : (serve env (st) r u).2.src = .noecsCache) :
+    ∃ x ∈ hist, some x.2.token = (serve env (st) r u).2.tok ∧
+      dependent env x.1 x.2 = false ∧ declined x.1 = declined r ∧
+      x.1.host = r.host ∧ x.1.qtype = r.qtype ∧ x.1.qclass = r.qclass ∧
+      isDO x.1.extra = isDO r.extra := by
+  unfold serve at hsrc ⊢
+  split at hsrc
+  · simp at hsrc
+  · rename_i hbad
+    simp only [hbad, ↓reduceIte]
+    unfold serveCache at hsrc ⊢
+    split at hsrc
+    · simp [errOut] at hsrc
+    · rename_i sub hsub
+      simp only [hsub]
+      split at hsrc
+      · rename_i it hit
+        simp only [hit]
+        obtain ⟨x, hx, htok, -, hk, hdep⟩ := hinv.1 _ it hit
+        simp only [nkey, NKey.mk.injEq] at hk
+        exact ⟨x, hx, by simp [htok], hdep, hk.2.2.2.2.2.symm, hk.1.symm, hk.2.1.symm, hk.2.2.1.symm,
+          hk.2.2.2.1.symm⟩
+      · split at hsrc
+        · simp at hsrc
+        · split at hsrc
+          · simp [errOut] at hsrc
+          · split at hsrc
+            · simp [errOut] at hsrc
+            · split at hsrc <;> simp [errOut] at hsrc
+
+theorem ecs_echo_of_inv (env : Env) (hist : List (Req × Up)) (st : St) (hinv : Inv env hist st) (r : Req) (u : Up)
+    (hk : (serve env (st) r u).2.kind = .ok) :
+    ecsOpts (serve env (st) r u).2.rextra =
+      match ecsFromMsg r.extra with
+      | .ok p _ => [mkECS p p.bits]
+      | _ => [] := by
+  have hresp : ∀ extra, ecsOpts extra = [] → ecsOpts (respExtra r extra) =
+      match ecsFromMsg r.extra with
+      | .ok p _ => [mkECS p p.bits]
+      | _ => [] := by
+    intro extra he
+    cases h : ecsFromMsg r.extra <;> simp [respExtra, clientECS, h, ecsOpts_setECS, he]
+  unfold serve at hk ⊢
+  split at hk
+  · simp at hk
+  · rename_i hbad
+    simp only [hbad, ↓reduceIte]
+    unfold serveCache at hk ⊢
+    split at hk
+    · simp [errOut] at hk
+    · rename_i sub hsub
+      simp only [hsub]
+      split at hk
+      · rename_i it hit
+        simp only [hit]
+        obtain ⟨x, -, -, hex, -, -⟩ := hinv.1 _ it hit
+        exact hresp _ (by rw [hex]; exact ecsOpts_rmHop _)
+      · split at hk
+        · rename_i it hit
+          obtain ⟨x, -, -, hex, -, -⟩ := hinv.2 (ekey r sub) it (by
+            cases hd : declined r <;> simp_all)
+          exact hresp _ (by rw [hex]; exact ecsOpts_rmHop _)
+        · split at hk
+          · simp [errOut] at hk
+          · rename_i hfam
+            try simp only [hfam, ↓reduceIte]
+            split at hk
+            · simp [errOut] at hk
+            · rename_i hfail
+              try simp only [hfail, ↓reduceIte]
+              split at hk
+              · simp [errOut] at hk
+              · rename_i hub
+                try simp only [hub, ↓reduceIte]
+                exact hresp _ (ecsOpts_rmHop _)
+
+theorem declined_of_inv (env : Env) (hist : List (Req × Up)) (st : St) (hinv : Inv env hist st) (r : Req) (u : Up)
+    (hd : declined r = true) (hsrc : (serve env st r u).2.src = .noecsCache) :
+    ∃ x ∈ hist, some x.2.token = (serve env st r u).2.tok ∧
+      declined x.1 = true ∧ dependent env x.1 x.2 = false ∧ x.1.host = r.host ∧
+      x.1.qtype = r.qtype ∧ x.1.qclass = r.qclass ∧ ecsFamOf x.1 = ecsFamOf r := by
+  unfold serve at hsrc ⊢
+  split at hsrc
+  · simp at hsrc
+  · rename_i hbad
+    simp only [hbad, ↓reduceIte]
+    unfold serveCache at hsrc ⊢
+    split at hsrc
+    · simp [errOut] at hsrc
+    · rename_i sub hsub
+      simp only [hsub]
+      split at hsrc
+      · rename_i it hit
+        simp only [hit]
+        obtain ⟨x, hx, htok, -, hk, hdep⟩ := hinv.1 _ it hit
+        simp only [nkey, NKey.mk.injEq] at hk
+        have hsubfam : sub.fam = ecsFamOf r := by
+          unfold mapped at hsub
+          simp only [hd, ↓reduceIte, Option.some.injEq] at hsub
+          rw [← hsub]; rfl
+        refine ⟨x, hx, by simp [htok], ?_, hdep, hk.1.symm, hk.2.1.symm, hk.2.2.1.symm, ?_⟩
+        · rw [← hk.2.2.2.2.2]; exact hd
+        · have := hk.2.2.2.2.1
+          simp only [zeroPfx] at this
+          rw [← this, hsubfam]
+      · split at hsrc
+        · simp at hsrc
+        · split at hsrc
+          · simp [errOut] at hsrc
+          · split at hsrc
+            · simp [errOut] at hsrc
+            · split at hsrc <;> simp [errOut] at hsrc
+
+/-! ## `geoip.File`: where the entries of the subnet maps come from -/
+
+theorem replaceSubnet_cases {K : Type} [DecidableEq K] (m : K → Option Pfx) (k : K) (p : Pfx) (w : Nat)
+    (k' : K) : replaceSubnet m k p w k' = m k' ∨ (k' = k ∧ replaceSubnet m k p w k' = some p) := by
+  have hput : putK m k p k' = m k' ∨ (k' = k ∧ putK m k p k' = some p) := by
+    by_cases h : k' = k
+    · right; exact ⟨h, by simp [putK, h]⟩
+    · left; simp [putK, h]
+  unfold replaceSubnet
+  cases hm : m k with
+  | none =>
+    simp only
+    split
+    · exact Or.inl rfl
+    · exact hput
+  | some prev =>
+    simp only
+    split
+    · exact Or.inl rfl
+    · exact hput
+
+/-- Every entry of a scanned map was there before or is a network of the scan, stored under its own
+key in the map of its own family. -/
+theorem scan_from {K : Type} [DecidableEq K] :
+    ∀ (nets : List (K × Pfx)) (m : Fam → K → Option Pfx) (f : Fam) (k : K) (q : Pfx),
+      scan m nets f k = some q → m f k = some q ∨ ∃ n ∈ nets, n.1 = k ∧ n.2.fam = f ∧ q = n.2
+  | [], m, f, k, q, h => Or.inl h
+  | kp :: r, m, f, k, q, h => by
+    rcases scan_from r (scanStep m kp.1 kp.2) f k q h with h1 | ⟨n, hn, h2⟩
+    · unfold scanStep at h1
+      split at h1
+      · rename_i hf
+        rcases replaceSubnet_cases (m f) kp.1 kp.2 (desired f) k with h3 | ⟨hk, h3⟩
+        · left; rw [← h3]; exact h1
+        · right
+          rw [h3] at h1
+          simp only [Option.some.injEq] at h1
+          exact ⟨kp, List.mem_cons_self, hk.symm, hf.symm, h1.symm⟩
+      · exact Or.inl h1
+    · exact Or.inr ⟨n, List.mem_cons_of_mem _ hn, h2⟩
+
+theorem lengthen_fam (f : Fam) (p : Pfx) : (lengthen f p).fam = p.fam := by
+  unfold lengthen; split <;> rfl
+
+theorem lengthen_addr (f : Fam) (p : Pfx) : (lengthen f p).addr = p.addr := by
+  unfold lengthen; split <;> rfl
+
+theorem lengthen_bits (f : Fam) (p : Pfx) : desired f ≤ (lengthen f p).bits := by
+  unfold lengthen; split
+  · exact Nat.le_refl _
+  · omega
 
 /-! ## The byte strings hashed by `toCacheKey` determine the structural keys -/
 
